@@ -23,3 +23,106 @@ Print Assumptions C37_lookup_spec.
 Theorem C37_names_unique : forall t c d, Inv t -> has t c -> has t d -> cname c = cname d -> c = d.
 Proof. exact names_unique. Qed.
 Print Assumptions C37_names_unique.
+
+(* ---------------- histories (Proof2.v) ---------------- *)
+From Verif Require Import C37.Proof2.
+Open Scope N_scope.
+
+(* (a) every history of Add/Del/Lookup/dispatch from the empty table keeps the table invariant:
+   bucket keys unique, every bucket non-empty, strictly sorted by name (hence duplicate-free) and
+   holding only names that start with the bucket's byte *)
+Theorem C37_sorted_invariant : forall ops, Inv (run_table ops).
+Proof. exact sorted_invariant. Qed.
+Print Assumptions C37_sorted_invariant.
+
+(* (b) no history makes the model hit an index out of range or exhaust the binary-search loop bound *)
+Theorem C37_no_crash : forall ops,
+  ~ In (RLook Crash) (snd (run [] ops)) /\ ~ In (RDisp DCrash) (snd (run [] ops)).
+Proof. exact no_crash. Qed.
+Print Assumptions C37_no_crash.
+
+(* removeCmd's two overlapping copies = deleting position pos *)
+Theorem C37_removeCmd_is_delete : forall vec pos, (pos < length vec)%nat ->
+  removeCmd vec pos = firstn pos vec ++ skipn (S pos) vec.
+Proof. exact removeCmd_spec. Qed.
+Print Assumptions C37_removeCmd_is_delete.
+
+(* (c) one step: Add *)
+Theorem C37_add_updates : forall t c, Inv t -> cname c <> [] ->
+  exists t', add t c = Some (t', true) /\ Inv t' /\
+    (forall d, has t' d <-> d = c \/ (has t d /\ cname d <> cname c)).
+Proof. exact add_spec. Qed.
+Print Assumptions C37_add_updates.
+
+Theorem C37_add_empty_name : forall t c, cname c = [] -> add t c = Some (t, false).
+Proof. exact add_empty. Qed.
+Print Assumptions C37_add_empty_name.
+
+(* (c) one step: Del removes exactly the command named n; the result is true iff it existed *)
+Theorem C37_del_updates : forall t n, Inv t ->
+  exists t' r, del t n = Some (t', r) /\ Inv t' /\
+    (forall d, has t' d <-> has t d /\ cname d <> n) /\
+    (r = true <-> exists d, has t d /\ cname d = n).
+Proof. exact del_spec. Qed.
+Print Assumptions C37_del_updates.
+
+(* (c) histories: the table is, after every history, the same set as the abstract machine's
+   (a list of commands with remove-by-name / cons), and the booleans returned by Add/Del agree *)
+Theorem C37_table_refines_set : forall ops,
+  (forall d, has (run_table ops) d <-> In d (fst (a_run [] ops))) /\
+  map out_bool (snd (run [] ops)) = snd (a_run [] ops).
+Proof. exact table_refines_set. Qed.
+Print Assumptions C37_table_refines_set.
+
+(* (d) the lookup property holds after every history *)
+Theorem C37_lookup_history : forall ops p, p <> [] ->
+  lookup_ok (run_table ops) p (lookup (run_table ops) p).
+Proof. exact lookup_history. Qed.
+Print Assumptions C37_lookup_history.
+
+(* (e) Interp.Cmd: an input whose first word matches no command is evaluated as code (the text after
+   the command character, with one blank in its place); otherwise exactly the command found runs *)
+Theorem C37_unknown_is_code : forall t src, lookup t (fst (split2 (tl src))) = NoMatch ->
+  dispatch_cmd t src = EvalAsCode (32 :: tl src).
+Proof. exact unknown_is_code. Qed.
+Print Assumptions C37_unknown_is_code.
+
+Theorem C37_dispatch_runs_found : forall t src c, lookup t (fst (split2 (tl src))) = Found c ->
+  dispatch_cmd t src = RunCmd c (snd (split2 (tl src))).
+Proof. exact dispatch_runs_found. Qed.
+Print Assumptions C37_dispatch_runs_found.
+
+Theorem C37_unknown_is_code_history : forall ops src,
+  (forall d, has (run_table ops) d -> prefixb (fst (split2 (tl src))) (cname d) = false) ->
+  dispatch_cmd (run_table ops) src = EvalAsCode (32 :: tl src).
+Proof. exact unknown_is_code_history. Qed.
+Print Assumptions C37_unknown_is_code_history.
+
+(* ---------------- (f) non-vacuity: a reachable table on which every outcome occurs ---------------- *)
+Definition s_env : str := [101;110;118].
+Definition s_environ : str := [101;110;118;105;114;111;110].
+Definition s_exit : str := [101;120;105;116].
+Definition ex_ops : list op := [OAdd (mkCmd s_exit 3); OAdd (mkCmd s_env 1); OAdd (mkCmd s_environ 2)].
+Definition ex_t : table := run_table ex_ops.
+
+Example C37_ex_table : ex_t = [(101, [mkCmd s_env 1; mkCmd s_environ 2; mkCmd s_exit 3])].
+Proof. vm_compute. reflexivity. Qed.
+Example C37_ex_exact_wins : lookup ex_t s_env = Found (mkCmd s_env 1).       (* "env" although "environ" matches too *)
+Proof. vm_compute. reflexivity. Qed.
+Example C37_ex_unique_prefix : lookup ex_t [101;120] = Found (mkCmd s_exit 3). (* "ex" *)
+Proof. vm_compute. reflexivity. Qed.
+Example C37_ex_ambiguous : lookup ex_t [101;110] = Ambiguous [s_env; s_environ]. (* "en" *)
+Proof. vm_compute. reflexivity. Qed.
+Example C37_ex_ambiguous3 : lookup ex_t [101] = Ambiguous [s_env; s_environ; s_exit]. (* "e" *)
+Proof. vm_compute. reflexivity. Qed.
+Example C37_ex_nomatch : lookup ex_t [101;110;120] = NoMatch /\ lookup ex_t [113] = NoMatch. (* "enx", "q" *)
+Proof. vm_compute. split; reflexivity. Qed.
+(* ":foo 1+1" -> evaluate " foo 1+1";  ":ex  a b " -> run exit with argument "a b" *)
+Example C37_ex_dispatch_code : dispatch_cmd ex_t [58;102;111;111;32;49;43;49] = EvalAsCode [32;102;111;111;32;49;43;49].
+Proof. vm_compute. reflexivity. Qed.
+Example C37_ex_dispatch_run : dispatch_cmd ex_t [58;101;120;32;32;97;32;98;32] = RunCmd (mkCmd s_exit 3) [97;32;98].
+Proof. vm_compute. reflexivity. Qed.
+(* after Del "env" the prefix "env" resolves to the only remaining match; re-Add overwrites in place *)
+Example C37_ex_del : snd (run [] (ex_ops ++ [ODel s_env; OLookup s_env; ODel s_env; OAdd (mkCmd s_exit 9); OLookup s_exit]))
+  = [RBool true; RBool true; RBool true; RBool true; RLook (Found (mkCmd s_environ 2)); RBool false; RBool true; RLook (Found (mkCmd s_exit 9))].
+Proof. vm_compute. reflexivity. Qed.
